@@ -19,6 +19,7 @@ import Driver.DecoratorDirect
 import Driver.ExitStackEnter
 import Driver.CloseBusy
 import Driver.AwaitifyReuse
+import Driver.CachedPropertyHandoff
 import Driver.Tools
 open Lean
 
@@ -38,6 +39,7 @@ def dispatch (j : Json) : Except String Json := do
   | "exitstackenter" => Drv.ExitStackEnter.run j
   | "closebusy" => Drv.CloseBusy.run j
   | "awaitifyreuse" => Drv.AwaitifyReuse.run j
+  | "cachedpropertyhandoff" => Drv.CachedPropertyHandoff.run j
   | "tool" => Drv.Tools.run j
   | "contextmanager" => Drv.ContextManager.run j
   | "adapters" => Drv.Adapters.run j
